@@ -111,11 +111,9 @@ Definition s_step (k : kind) (cap : nat) (s : st A) (o : op A) : option (st A * 
   if negb (has_member k o) then None else
   match o with
   | Insert x | Emplace x => Some (updc s (s_insert_bounded cap x (cur s)))
-  | InsertHint h x =>
-      if h <=? length (cur s) then
-        let r := s_insert_bounded cap x (cur s) in
-        Some (updc s (fst r, match snd r with SIns p _ => SPos p | o' => o' end))
-      else None
+  | InsertHint _ x =>   (* the hint only affects the complexity; the iterator to the key is returned *)
+      let r := s_insert_bounded cap x (cur s) in
+      Some (updc s (fst r, match snd r with SIns p _ => SPos p | o' => o' end))
   | InsertRange ks => Some (updc s (s_insert_range k cap ks (cur s)))
   | Assign ks =>
       if length ks <=? cap then Some (updc s (fst (s_insert_range k cap ks []), SUnit)) else None
